@@ -126,7 +126,7 @@ Section StackModel.
   Definition has_ub (rs : list res) : bool :=
     existsb (fun r => match r with RUB => true | _ => false end) rs.
 
-  Definition wf (s : stack) : Prop := length (cells s) = CAP /\ 0 <= top s <= Z.of_nat CAP.
+  Definition wf (s : stack) : Prop := List.length (cells s) = CAP /\ 0 <= top s <= Z.of_nat CAP.
 End StackModel.
 
 Arguments RVal {T} v.
